@@ -2,7 +2,7 @@
 history; results do not depend on earlier read-only queries."""
 from .condfam import *
 PROPERTY = "C04"
-LEAN_MODULES = ["GT.Props.C04"]
+LEAN_MODULES = ["GT.Props.C04", "GT.Props.C04Ext"]
 ASSUMPTIONS = ["float64 rounding outside the theorems; histories sampled (length <= 8 quick, <= 20 thorough), the theorems cover all lengths"]
 
 QUERIES = ["integral", "log_integral", "log_integral_light", "integral_light", "evaluate", "get_density", "integrate_x"]
